@@ -150,3 +150,38 @@ func VerifC13ClientGenesis() {
 }
 
 var _ sdk.Context
+
+// VerifC13TwoClients: two clients at once, under arbitrary valid chain names of 3 and 3..4 bytes (so that one name may extend
+// the other, or differ from it in any byte): both are exported, the export validates, and both are there after the import.
+func VerifC13TwoClients() {
+	rt.Opt("structured-keys")
+	rt.RegisterInterfaces(types.RegisterInterfaces)
+	rt.RegisterInterfaces(tsstypes.RegisterInterfaces)
+	k := genesisKeeper()
+	src := rt.EmptyCtx()
+	k.SetChainName(src, "teleport")
+	a := rt.StrN("chainA", 3)
+	b := rt.StrN("chainB", 3+rt.IntRange("chainB.extraBytes", 0, 1))
+	rt.Assume(host.ClientIdentifierValidator(a) == nil && host.ClientIdentifierValidator(b) == nil && a != b)
+	csA, csB := &tsstypes.ClientState{TssAddress: rt.Str("tssA")}, &tsstypes.ClientState{TssAddress: rt.Str("tssB")}
+	rt.Assume(csA.Validate() == nil && csB.Validate() == nil) // stored by a creation path, which validates
+	k.SetClientState(src, a, csA)
+	k.SetClientState(src, b, csB)
+	gs := ExportGenesis(src, k)
+	rt.Reach("exported")
+	rt.Assert("G1-export-passes-validation", gs.Validate() == nil)
+	foundA, foundB := false, false
+	for _, c := range gs.Clients {
+		foundA = foundA || c.ChainName == a
+		foundB = foundB || c.ChainName == b
+	}
+	rt.Assert("G1-every-client-exported", len(gs.Clients) == 2 && foundA && foundB)
+	dst := rt.EmptyCtx()
+	if rt.NoPanic("G2-import-does-not-panic", func() { InitGenesis(dst, k, gs) }) {
+		return
+	}
+	rt.Reach("imported")
+	ca, okA := k.GetClientState(dst, a)
+	cb, okB := k.GetClientState(dst, b)
+	rt.Assert("G2-both-clients-preserved", okA && okB && ca.ClientType() == exported.TSS && cb.ClientType() == exported.TSS)
+}
